@@ -4,9 +4,12 @@
 -/
 import SeedProofs.Lemmas.Scan
 import SeedProofs.Lemmas.ParseTotal
+import SeedProofs.Lemmas.ParseErrTok
+import SeedModel.Run
 namespace Seed.C03
 open Seed
 
+-- audit: Seed.errAll Seed.parseStmts_err_tok_mem
 -- audit: Seed.pmonoAll Seed.pbndAll Seed.ptotAll Seed.parseStmts_total Seed.parseExpr_total
 
 /-- the parser never runs out of the fuel the driver gives it: parsing terminates on every token list -/
@@ -110,5 +113,105 @@ theorem suppress_length_le (last : Option Token) (ts : List Span) : (suppress la
       · split
         · have := ih (some sp.tok); simp only [List.length_cons]; omega
         · simp only [List.length_cons]; have := ih (some sp.tok); omega
+
+/-! ## the run as a whole: a rejected input prints nothing and names one position inside the file -/
+
+/-- `syntax_error_no_output`: an input the front end rejects produces no output at all, the failure status, and the
+    one-line diagnostic — at every fuel (the evaluator never starts) -/
+theorem syntax_error_no_output (n : Nat) (path src : List Char) (e : FrontErr) (h : parseProg src = .err e) :
+    run n path src = ⟨[], .failed, parseErrText path e⟩ := by
+  unfold run
+  rw [h]
+
+/-- an accepted or rejected input: the front end decides, only evaluation can use up the fuel -/
+theorem run_timeout_is_eval (n : Nat) (path src : List Char) (h : (run n path src).status = .timeout) :
+    ∃ stmts, parseProg src = .ok stmts ∧ evalProg n stmts = .timeout := by
+  unfold run at h
+  cases hp : parseProg src with
+  | timeout => exact absurd hp (front_end_total src)
+  | err e => rw [hp] at h; cases h
+  | ok stmts =>
+    rw [hp] at h
+    refine ⟨stmts, rfl, ?_⟩
+    dsimp only [] at h
+    cases he : evalProg n stmts with
+    | timeout => rfl
+    | ok a σ => rw [he] at h; cases h
+    | err e σ => rw [he] at h; cases h
+    | crash w σ => rw [he] at h; cases h
+
+/-- `diag_format`: the diagnostic of a rejected input is exactly `<path>:<line>:<col>: <message>` and a newline -/
+theorem diag_format (path : List Char) (e : FrontErr) :
+    parseErrText path e =
+      path ++ c!":" ++ natToChars (parseErrMsg e).1.1 ++ c!":" ++ natToChars (parseErrMsg e).1.2 ++ c!": " ++
+        (parseErrMsg e).2 ++ c!"\n" := rfl
+
+/-- the message is never empty -/
+theorem diag_msg_nonempty (e : FrontErr) : (parseErrMsg e).2 ≠ [] := by
+  cases e with
+  | lex e => cases e <;> simp [parseErrMsg]
+  | unexpectedTok sp => simp [parseErrMsg]
+  | unexpectedEof l => simp [parseErrMsg]
+
+theorem lastEnd_mem : ∀ (ts : List Span), ts ≠ [] → ∃ sp ∈ ts, lastEnd ts = sp.stop
+  | [], h => absurd rfl h
+  | [sp], _ => ⟨sp, by simp, rfl⟩
+  | sp :: sp2 :: r, _ => by
+    obtain ⟨x, hx, he⟩ := lastEnd_mem (sp2 :: r) (by simp)
+    exact ⟨x, List.mem_cons_of_mem _ hx, by simpa [lastEnd] using he⟩
+
+/-- the empty token list is a program -/
+theorem parseStmts_nil_ok (n : Nat) : parseStmts (n + 1) false [] [] = .ok [] [] := by
+  unfold parseStmts; rfl
+
+/-- `syntax_error_line_bound`: the position a rejected input is reported at lies on a line of the file
+    (lines are counted from 1; an error at the very end may sit on the line after the last newline) -/
+theorem syntax_error_line_bound (src : List Char) (e : FrontErr) (h : parseProg src = .err e) :
+    1 ≤ (parseErrMsg e).1.1 ∧ (parseErrMsg e).1.1 ≤ 1 + src.count '\n' := by
+  have hl := lexAll_lines src
+  unfold parseProg at h
+  generalize lexAll src = p at h hl
+  obtain ⟨ts, le⟩ := p
+  simp only at h hl
+  have hlex : ∀ x, le = some x → 1 ≤ (parseErrMsg (.lex x)).1.1 ∧ (parseErrMsg (.lex x)).1.1 ≤ 1 + src.count '\n' := by
+    intro x hx
+    have := hl.2 x hx
+    cases x <;> exact this
+  cases hp : parseStmts (parseFuel ts) false [] ts with
+  | timeout => rw [hp] at h; cases h
+  | ok a rest =>
+    rw [hp] at h
+    cases le with
+    | none => cases h
+    | some x =>
+      simp only [Front.err.injEq] at h
+      subst h
+      exact hlex x rfl
+  | err pe =>
+    rw [hp] at h
+    simp only [Front.err.injEq] at h
+    subst h
+    cases pe with
+    | tok sp =>
+      have hm := parseStmts_err_tok_mem hp
+      exact (hl.1 sp hm).1
+    | eof =>
+      cases le with
+      | some x => exact hlex x rfl
+      | none =>
+        cases ts with
+        | nil =>
+          rw [show parseFuel [] = 79 + 1 from rfl, parseStmts_nil_ok] at hp
+          cases hp
+        | cons sp r =>
+          obtain ⟨x, hx, he⟩ := lastEnd_mem (sp :: r) (by simp)
+          show 1 ≤ (lastEnd (sp :: r)).1 ∧ (lastEnd (sp :: r)).1 ≤ 1 + src.count '\n'
+          rw [he]
+          exact (hl.1 x hx).2
+
+/-- the hypotheses are satisfiable: an unterminated call on line 3 -/
+example : ∃ e, parseProg c!"a := 1;\n\nf(a" = .err e ∧ (parseErrMsg e).1 = (3, 3) := ⟨_, rfl, rfl⟩
+example : (run 0 c!"p.sd" c!"print(1); )").stderr = c!"p.sd:1:11: unexpected ')'\n" ∧
+    (run 0 c!"p.sd" c!"print(1); )").out = [] ∧ (run 0 c!"p.sd" c!"print(1); )").status = .failed := by decide +kernel
 
 end Seed.C03
